@@ -28,6 +28,7 @@ GSpec == GInit /\ [][GNext]_gvars
 Flushed == IF nb > 0 THEN Append(outp, acc) ELSE outp
 
 StreamIsDef == Flushed = PackRaw(s)
+FastIsDef == PackFast(s) = PackRaw(s)
 LenOK == Len(Pack(s)) = PackedLen(Len(s))
 RoundTripN == UnpackN(Pack(s), Len(s)) = s
 FillIsCR == (Len(s) % 8 = 7) => UnpackN(Pack(s), Len(s) + 1)[Len(s) + 1] = CR
